@@ -25,8 +25,7 @@ def run_native(path, command, verbose, style='auto', options=None, use_main=Fals
     from xdoctest.__main__ import main as xmain
     buf = io.StringIO()
     res = {'raised': None, 'rc': None, 'summary': None}
-    with contextlib.redirect_stdout(buf), contextlib.redirect_stderr(buf), warnings.catch_warnings():
-        warnings.simplefilter('ignore')
+    with contextlib.redirect_stdout(buf), contextlib.redirect_stderr(buf), harness.fresh_process_warning_filters():
         try:
             if use_main:
                 argv = ['xdoctest', path, command, '--style=' + style, '--verbose=%d' % verbose, '--nocolor']
